@@ -741,13 +741,342 @@ fn case_json(i: usize, p: &Prog, stride: usize) -> serde_json::Value {
     serde_json::json!({"prog": i, "family": p.family, "stride": stride, "steps": steps})
 }
 
+
+// ------------------------------------------------------------------------------------------------
+// collect replay: dump the heap before a real collection, let the extracted model collect the dump
+// (coq/extract/c05), compare which of the dumped objects are freed.
+
+struct RForest {
+    gcs: Vec<usize>,            // heap index -> Gc identity: 0 G | 1 R | 2 A | 3 B | 4 AA
+    parents: Vec<Option<usize>>,
+    ths: Vec<(&'static str, RootedThread, usize)>, // (name, thread, heap)
+}
+
+impl RForest {
+    fn new() -> RForest {
+        let r = new_vm();
+        r.run_expr::<()>("prelude2", &format!("{}{}()", HDR, LIB)).unwrap_or_else(|e| panic!("prelude: {}", e));
+        let a = r.new_thread().unwrap();
+        let b = r.new_thread().unwrap();
+        let aa = a.new_thread().unwrap();
+        let gcs = vec![r.verif_global_gc_id(), r.verif_gc_id(), a.verif_gc_id(), b.verif_gc_id(), aa.verif_gc_id()];
+        RForest { gcs, parents: vec![None, Some(0), Some(1), Some(1), Some(2)], ths: vec![("R", r, 1), ("A", a, 2), ("B", b, 3), ("AA", aa, 4)] }
+    }
+    fn heap_of_gc(&self, gc: usize) -> Option<usize> {
+        self.gcs.iter().position(|g| *g == gc)
+    }
+}
+
+fn model_kind(kind: &str) -> u8 {
+    match kind {
+        "data" => 0,
+        "closure" => 1,
+        "papp" => 2,
+        "array:unknown" => 3,
+        "array:array" => 4,
+        "array:string" => 5,
+        "array:byte" | "array:int" | "array:float" => 6,
+        "array:userdata" => 7,
+        "string" => 8,
+        "extern" => 9,
+        "bytecode" => 10,
+        "reference" | "lazy:thunk" | "lazy:value" => 11,
+        _ => 12,
+    }
+}
+
+fn replay_values() -> Vec<String> {
+    let mut v: Vec<String> = container_values().into_iter().map(|(_, b)| b.to_string()).collect();
+    v.push("type L = | N | C String L\nC (mk \"l1\") (C (mk \"l2\") (C \"lit\" N))".into());
+    v.push("rec\ntype A = { b : B, k : Int, s : String }\ntype B = { a : A, z : Array String }\nrec\nlet x : A = { b = y, k = 1, s = mk \"cy\" }\nlet y : B = { a = x, z = [mk \"c1\", mk \"c2\"] }\nx".into());
+    v.push("ref { v = 1, s = [mk \"rf\"] }".into());
+    v.push("let l = lazy (\\_ -> { xs = [mk \"lz\"], k = 2 })\nlet k = (force l).k\n{ l, k }".into());
+    v.push("let s = { v = mk \"sh\" }\n{ l = s, r = s, arr = [s, s] }".into());
+    v.push("mk \"plain\"".into());
+    v.push("42".into());
+    v
+}
+
+/// One replay case; returns (model_in, impl_out, case json) or a skip reason
+fn replay_case(f: &RForest, rng: &mut Rng, idx: usize) -> Result<(String, String, serde_json::Value), String> {
+    let vals = replay_values();
+    let nt = f.ths.len();
+    // 1. values, each held by a host handle rooted in the thread that made it
+    let mut handles: Vec<(RVal, usize, String)> = vec![];
+    let nvals = 2 + rng.below(4) as usize;
+    let mut descr = vec![];
+    for _ in 0..nvals {
+        let t = rng.below(nt as u64) as usize;
+        let k = rng.below(vals.len() as u64) as usize;
+        let src = format!("{}{}{}", HDR, LIB, vals[k]);
+        match f.ths[t].1.run_expr::<Val>("value", &src) {
+            Ok((v, _)) => {
+                descr.push(format!("{}:value#{}", f.ths[t].0, k));
+                handles.push((v.into_inner(), t, format!("value#{} made by {}", k, f.ths[t].0)));
+            }
+            Err(e) => return Err(format!("value-error {}", esc(&e.to_string()).chars().take(120).collect::<String>())),
+        }
+    }
+    // a value the host holds must never reach a freed object (natural collections have run already)
+    let held_freed = |handles: &Vec<(RVal, usize, String)>| -> Option<String> {
+        for (h, _, d) in handles {
+            let g = verif::graph(h.get_value());
+            let idx: HashMap<usize, usize> = g.nodes.iter().enumerate().map(|(i, n)| (n.addr, i)).collect();
+            for n in &g.nodes {
+                for (k, e) in n.edges.iter().enumerate() {
+                    if let GraphEdge::Ptr(a) = e {
+                        if let Some(m) = idx.get(a).map(|j| &g.nodes[*j]) {
+                            if m.freed {
+                                return Some(format!("held-freed {} field {} of a `{}` in {}", n.kind, k, n.kind, d));
+                            }
+                        }
+                    }
+                }
+            }
+            if g.nodes.first().map(|n| n.freed).unwrap_or(false) {
+                return Some(format!("held-freed root the object of {}", d));
+            }
+        }
+        None
+    };
+    if let Some(e) = held_freed(&handles) {
+        return Err(e);
+    }
+    // 2. some values are also handed to another thread (copied, or shared when the receiver may hold them)
+    let nshare = rng.below(3) as usize;
+    for _ in 0..nshare {
+        let i = rng.below(handles.len() as u64) as usize;
+        let t = rng.below(nt as u64) as usize;
+        if let Ok(w) = handles[i].0.re_root(f.ths[t].1.clone()) {
+            descr.push(format!("{}->{}", handles[i].2, f.ths[t].0));
+            let d = format!("{} re-rooted in {}", handles[i].2, f.ths[t].0);
+            handles.push((w, t, d));
+        }
+    }
+    // leave only what the handles (and the threads' own roots) keep alive: after this, what the
+    // replayed collection frees is exactly what dropping handles made unreachable
+    // (every other case: without it the replayed collection is the first one after the values were
+    // built, and the heaps still hold the garbage of their construction — no accounting comparison then)
+    let precollected = idx % 2 == 0;
+    if precollected {
+        for (_, th, _) in f.ths.iter().rev() {
+            th.collect();
+        }
+    }
+    if let Some(e) = held_freed(&handles) {
+        return Err(e);
+    }
+    // 3. the dump: every object reachable from any handle
+    let mut addr_idx: HashMap<usize, usize> = HashMap::new();
+    let mut nodes: Vec<gluon_vm::verif::GraphNode> = vec![];
+    let mut handle_roots: Vec<Option<usize>> = vec![];
+    for (h, _, _) in &handles {
+        let g = verif::graph(h.get_value());
+        for n in &g.nodes {
+            if n.freed {
+                return Err("a fresh handle already reaches a freed object".into());
+            }
+            if !addr_idx.contains_key(&n.addr) {
+                addr_idx.insert(n.addr, nodes.len());
+                nodes.push(n.clone());
+            }
+        }
+        handle_roots.push(match g.root {
+            GraphEdge::Ptr(a) => Some(a),
+            _ => None,
+        });
+    }
+    if nodes.is_empty() {
+        return Err("nothing on the heap".into());
+    }
+    // 4. drop some handles, then take the root census with the real tracer
+    let mut keep: Vec<(RVal, usize, String)> = vec![];
+    let mut kept_roots: Vec<(usize, usize)> = vec![]; // (heap, object id)
+    let mut dropped = vec![];
+    for (i, (h, t, d)) in handles.into_iter().enumerate() {
+        if rng.chance(1, 2) {
+            dropped.push(d);
+            drop(h);
+        } else {
+            if let Some(a) = handle_roots[i] {
+                kept_roots.push((f.ths[t].2, addr_idx[&a]));
+            }
+            keep.push((h, t, d));
+        }
+    }
+    let mut roots: Vec<Vec<usize>> = vec![vec![]; f.gcs.len()];
+    for (_, th, heap) in &f.ths {
+        for n in th.verif_walk() {
+            if let Some(i) = addr_idx.get(&n.addr) {
+                roots[*heap].push(*i);
+            }
+        }
+    }
+    // a handle the host still holds is a root whatever the tracer thinks
+    for (h, i) in &kept_roots {
+        if !roots[*h].contains(i) {
+            roots[*h].push(*i);
+        }
+    }
+    for r in roots.iter_mut() {
+        r.sort();
+        r.dedup();
+    }
+    // 5. model input
+    let mut objs = vec![];
+    for n in &nodes {
+        let owner = f.heap_of_gc(n.owner).ok_or_else(|| format!("object of kind {} has an unknown owner", n.kind))?;
+        let es: Vec<String> = n
+            .edges
+            .iter()
+            .map(|e| match e {
+                GraphEdge::Imm(_) => "i0".to_string(),
+                GraphEdge::Ptr(a) => format!("p{}", addr_idx[a]),
+            })
+            .collect();
+        objs.push(format!("{}:{}:{}:0:{}", owner, n.generation, model_kind(&n.kind), if es.is_empty() { "-".to_string() } else { es.join(".") }));
+    }
+    let ct = rng.below(nt as u64) as usize;
+    let tree: Vec<String> = f.parents.iter().map(|p| p.map(|x| x.to_string()).unwrap_or("-".into())).collect();
+    let roots_field: Vec<String> = roots.iter().enumerate().filter(|(_, r)| !r.is_empty()).map(|(h, r)| format!("{}:{}", h, r.iter().map(|x| x.to_string()).collect::<Vec<_>>().join("."))).collect();
+    let model_in = format!("tree={};objs={};roots={};collect={}", tree.join(","), objs.join("|"), roots_field.join("|"), f.ths[ct].2);
+    // path from a root to every object (for the reports)
+    let mut path: Vec<Option<String>> = vec![None; nodes.len()];
+    let mut queue = std::collections::VecDeque::new();
+    for (h, r) in roots.iter().enumerate() {
+        for i in r {
+            if path[*i].is_none() {
+                path[*i] = Some(format!("root of heap {} -> {}", h, nodes[*i].kind));
+                queue.push_back(*i);
+            }
+        }
+    }
+    while let Some(i) = queue.pop_front() {
+        for (k, e) in nodes[i].edges.iter().enumerate() {
+            if let GraphEdge::Ptr(a) = e {
+                let j = addr_idx[a];
+                if path[j].is_none() {
+                    path[j] = Some(format!("{} .{} -> {}", path[i].clone().unwrap(), k, nodes[j].kind));
+                    queue.push_back(j);
+                }
+            }
+        }
+    }
+    // 6. the real collection
+    let _ = verif::take_events();
+    let before: Vec<usize> = f.ths.iter().map(|t| t.1.allocated_memory()).collect();
+    f.ths[ct].1.collect();
+    let after: Vec<usize> = f.ths.iter().map(|t| t.1.allocated_memory()).collect();
+    let shrunk: Vec<usize> = (0..f.ths.len()).filter(|i| after[*i] < before[*i]).map(|i| f.ths[i].2).collect();
+    let grew: Vec<usize> = (0..f.ths.len()).filter(|i| after[*i] > before[*i]).map(|i| f.ths[i].2).collect();
+    let events = verif::take_events();
+    let freed: Vec<String> = nodes.iter().enumerate().filter(|(_, n)| verif::is_freed(n.addr)).map(|(i, _)| i.to_string()).collect();
+    let impl_out = format!("ok freed={}", freed.join(","));
+    let mut case = serde_json::json!({
+        "replay_case": idx,
+        "setup": descr,
+        "dropped": dropped,
+        "collect": f.ths[ct].0,
+        "kinds": nodes.iter().map(|n| n.kind.clone()).collect::<Vec<_>>(),
+        "owners": nodes.iter().map(|n| f.heap_of_gc(n.owner).unwrap_or(99)).collect::<Vec<_>>(),
+        "paths": path,
+        "allocated_before": before,
+        "allocated_after": after,
+        "events": events,
+    });
+    if precollected {
+        case["shrunk"] = serde_json::json!(shrunk);
+        case["grew"] = serde_json::json!(grew);
+    }
+    // clean up: everything goes, leaf heaps first
+    drop(keep);
+    for (_, th, _) in f.ths.iter().rev() {
+        th.collect();
+    }
+    let _ = verif::take_events();
+    Ok((model_in, impl_out, case))
+}
+
+fn replay_child(args: &Args, start: usize) {
+    verif::set_quarantine(true);
+    verif::set_stride(0);
+    let n = args.extra.get("replays").and_then(|s| s.parse().ok()).unwrap_or(if args.thorough() { 6000 } else { 400 });
+    let open = |name: &str| std::io::BufWriter::new(std::fs::OpenOptions::new().create(true).append(true).open(args.out.join(name)).unwrap());
+    let (mut mi, mut io, mut cs) = (open("creplay_model_in.txt"), open("creplay_impl_out.txt"), open("creplay_cases.txt"));
+    let progress = args.out.join("creplay_progress.txt");
+    let mut f = RForest::new();
+    for i in 0..n {
+        // every case draws from its own generator so that a restart after a crash continues identically
+        let mut rng = Rng::new(args.seed.wrapping_mul(1_000_003).wrapping_add(i as u64));
+        if i < start {
+            continue;
+        }
+        std::fs::write(&progress, format!("{}", i)).unwrap();
+        if i > start && i % 150 == 0 {
+            f = RForest::new();
+        }
+        let r = catch_unwind(AssertUnwindSafe(|| replay_case(&f, &mut rng, i)));
+        let (a, b, c) = match r {
+            Ok(Ok(x)) => x,
+            Ok(Err(why)) if why.starts_with("held-freed") => {
+                // the heap is damaged: start over with a fresh forest
+                std::mem::forget(std::mem::replace(&mut f, RForest::new()));
+                ("skip".to_string(), why.clone(), serde_json::json!({"replay_case": i, "held_freed": why}))
+            }
+            Ok(Err(why)) => ("skip".to_string(), "skip".to_string(), serde_json::json!({"replay_case": i, "skipped": why})),
+            Err(_) => {
+                f = RForest::new();
+                ("skip".to_string(), "panic".to_string(), serde_json::json!({"replay_case": i, "panic": true}))
+            }
+        };
+        writeln!(mi, "{}", a).unwrap();
+        writeln!(io, "{}", b).unwrap();
+        writeln!(cs, "{}", c).unwrap();
+        if i % 20 == 0 {
+            mi.flush().unwrap();
+            io.flush().unwrap();
+            cs.flush().unwrap();
+        }
+    }
+    mi.flush().unwrap();
+    io.flush().unwrap();
+    cs.flush().unwrap();
+    std::fs::write(&progress, "done").unwrap();
+}
+
 fn main() {
     let args = Args::parse();
+    if args.rest.iter().any(|a| a == "creplay") {
+        let start = args.extra.get("start").and_then(|s| s.parse().ok()).unwrap_or(0);
+        replay_child(&args, start);
+        return;
+    }
     if args.rest.iter().any(|a| a == "child") {
         let stride = args.extra.get("stride").and_then(|s| s.parse().ok()).unwrap_or(0);
         let start = args.extra.get("start").and_then(|s| s.parse().ok()).unwrap_or(0);
         child_main(&args, stride, start);
         return;
+    }
+    if let Some(path) = &args.replay {
+        let v: serde_json::Value = serde_json::from_str(&std::fs::read_to_string(path).expect("replay file")).expect("json");
+        if let Some(i) = v["case"]["replay_case"].as_u64() {
+            // a collect-replay case: re-run exactly that case and show both sides' inputs
+            let mut a = Args::parse();
+            a.seed = v["seed"].as_u64().unwrap_or(a.seed);
+            a.out = std::path::Path::new(env!("CARGO_MANIFEST_DIR")).join("../.cache/replay-c05");
+            std::fs::create_dir_all(&a.out).ok();
+            for n in ["creplay_model_in.txt", "creplay_impl_out.txt", "creplay_cases.txt"] {
+                let _ = std::fs::remove_file(a.out.join(n));
+            }
+            a.extra.insert("replays".into(), format!("{}", i + 1));
+            println!("key: {}\ncase: {}", v["key"], v["case"]);
+            replay_child(&a, i as usize);
+            for n in ["creplay_model_in.txt", "creplay_impl_out.txt", "creplay_cases.txt"] {
+                println!("{}: {}", n, std::fs::read_to_string(a.out.join(n)).unwrap_or_default().trim());
+            }
+            println!("(feed creplay_model_in.txt to .cache/extract/c05/model to see the model's freed set)");
+            return;
+        }
     }
     let progs = prog_list(&args);
     let (only_prog, strides): (Option<usize>, Vec<usize>) = if let Some(path) = &args.replay {
@@ -765,7 +1094,7 @@ fn main() {
     }
     for e in std::fs::read_dir(&args.out).unwrap().flatten() {
         let n = e.file_name().to_string_lossy().to_string();
-        if n.starts_with("run_") || n.starts_with("progress_") {
+        if n.starts_with("run_") || n.starts_with("progress_") || n.starts_with("creplay_") {
             let _ = std::fs::remove_file(e.path());
         }
     }
@@ -783,6 +1112,16 @@ fn main() {
         }
         c.stdout(std::process::Stdio::null()).stderr(std::process::Stdio::null()).spawn().expect("spawn child")
     };
+    // the collect replay runs next to the stride children (not for a --replay of one program)
+    let spawn_creplay = |start: usize| {
+        let mut c = std::process::Command::new(&exe);
+        c.args(["--tier", &args.tier, "--seed", &args.seed.to_string(), "--out", args.out.to_str().unwrap(), "creplay", &format!("start={}", start)]);
+        if let Some(p) = args.extra.get("replays") {
+            c.arg(format!("replays={}", p));
+        }
+        c.stdout(std::process::Stdio::null()).stderr(std::process::Stdio::null()).spawn().expect("spawn creplay")
+    };
+    let mut creplay = if only_prog.is_none() { Some(spawn_creplay(0)) } else { None };
     let first = only_prog.unwrap_or(0);
     let mut running: Vec<(usize, std::process::Child, usize)> = strides.iter().map(|s| (*s, spawn(*s, first), 0usize)).collect();
     while !running.is_empty() {
@@ -819,6 +1158,41 @@ fn main() {
             }
         }
         running = next;
+    }
+    // supervise the collect replay: a crash is attributed to the case in progress, then it goes on
+    let mut creplay_crashes: Vec<(usize, String)> = vec![];
+    while let Some(mut child) = creplay.take() {
+        let status = loop {
+            match child.try_wait().unwrap() {
+                Some(st) => break Some(st),
+                None if t0.elapsed() > budget => {
+                    let _ = child.kill();
+                    let _ = child.wait();
+                    break None;
+                }
+                None => std::thread::sleep(std::time::Duration::from_millis(100)),
+            }
+        };
+        let progress = std::fs::read_to_string(args.out.join("creplay_progress.txt")).unwrap_or_default();
+        if status.map(|s| s.success()).unwrap_or(false) && progress == "done" {
+            break;
+        }
+        let i: usize = progress.parse().unwrap_or(usize::MAX);
+        creplay_crashes.push((i, status.map(|s| format!("child process died: {}", s)).unwrap_or("watchdog".into())));
+        if status.is_none() || i == usize::MAX || creplay_crashes.len() >= 5 {
+            break;
+        }
+        // realign the three files to i lines and mark the crashed case
+        for (name, filler) in [("creplay_model_in.txt", "skip"), ("creplay_impl_out.txt", "crash"), ("creplay_cases.txt", "{\"crashed\":true}")] {
+            let mut l: Vec<String> = std::fs::read_to_string(args.out.join(name)).unwrap_or_default().lines().map(|x| x.to_string()).collect();
+            l.truncate(i);
+            while l.len() < i {
+                l.push(if name == "creplay_cases.txt" { "{\"lost\":true}".to_string() } else { "skip".to_string() });
+            }
+            l.push(filler.to_string());
+            std::fs::write(args.out.join(name), l.join("\n") + "\n").unwrap();
+        }
+        creplay = Some(spawn_creplay(i + 1));
     }
     // collect results
     let mut results: HashMap<(usize, usize), serde_json::Value> = HashMap::new();
@@ -924,6 +1298,9 @@ fn main() {
                 }
             }
         }
+    }
+    for (i, why) in &creplay_crashes {
+        violation(format!("c05:replay-crash"), format!("the process died during collect-replay case {} ({})", i, why), serde_json::json!({"replay_case": i, "seed": args.seed, "tier": args.tier}), "no crash".into(), why.clone(), &mut hist);
     }
     expected.flush().unwrap();
     impl_out.flush().unwrap();
